@@ -441,10 +441,12 @@ def sexagesimal(ctx, prog, mod, R4="C17-R4", R5="C17-R5"):
              "from a leading '-', RA = hours*15")
     r2d = prog.func("angle_tools.ra2dec")
     rets = [s for s in walk_no_nested(r2d.node) if isinstance(s, ast.Return)]
-    ok = len(rets) == 1 and isinstance(rets[0].value, ast.BinOp) and \
-        isinstance(rets[0].value.op, ast.Mult) and \
-        {norm(rets[0].value.left), norm(rets[0].value.right)} == \
-        {"dec2dec(ra)", "15"}
+    from .c08 import _resolve_local
+    rv = _resolve_local(r2d.node, rets[0].value) if len(rets) == 1 else None
+    ok = isinstance(rv, ast.BinOp) and isinstance(rv.op, ast.Mult) and \
+        {norm(_resolve_local(r2d.node, rv.left)),
+         norm(_resolve_local(r2d.node, rv.right))} == \
+        {"dec2dec(%s)" % r2d.params[0], "15"}
     ctx.check(R5, r2d, "ra2dec = dec2dec * 15", ok,
               "hours must be converted to degrees with the factor 15",
               node=r2d.node)
